@@ -39,6 +39,9 @@ THEOREMS = [
     "IrVerif.AtomicSave.C08_invalidate_only_if",
     "IrVerif.AtomicSave.C08_invalidate_iff",
     "IrVerif.AtomicSave.C08_overwritten_spec",
+    "IrVerif.AtomicSave.C08_invalidated_spec",
+    "IrVerif.AtomicSave.C08_invalidated_sub",
+    "IrVerif.AtomicSave.C08_post_samefile",
     "IrVerif.AtomicSave.C08_sharded_no_touch",
     "IrVerif.AtomicSave.C08_cleanup_gap",
     "IrVerif.AtomicSave.C08_unload_crash",
